@@ -39,7 +39,7 @@ func c16Index(order []string, key string) int {
 // the listed keys appear in list order.
 func TestVerif_C16_sort(t *testing.T) {
 	s := verifh.New(t, "C16", "sort",
-		"random key/value lists of 0..60 entries (names differing only in case, repeated names, random initial order) x order lists (subset, superset, permuted, duplicated, other case); non-trivial = at least 2 listed and 1 unlisted key present; distinct by case line")
+		"random key/value lists of 0..60 entries (names differing only in case, repeated names, random initial order) x order lists (subset, superset, permuted, duplicated, other case, overlapping runs with re-cased repeats as repeated SetHeaderOrder calls produce them); non-trivial = at least 2 listed and 1 unlisted key present; distinct by case line")
 	s.OracleIndependent = true // the relative order of unlisted keys is not fixed by the property
 	r := s.Rand()
 	pool := []string{"Accept", "accept", "ACCEPT", "User-Agent", "user-agent", "Host", "Cookie", "X-A", "X-B", "x-b", "X-C", "X-D", "X-E", "X-F", "X-G", "X-H", "X-I", "X-J", "X-K", "X-L", "X-M", "X-N", "X-O", "X-P", "X-Q", "X-R", "Content-Type", "content-length", "Referer", "Origin", "a b", "Ünï", "x_y", "Z", ":method", ":path", ":scheme", ":authority", ":Path", ":METHOD"}
@@ -63,7 +63,9 @@ func TestVerif_C16_sort(t *testing.T) {
 			}
 		}
 		var order []string
-		switch r.Intn(5) {
+		switch r.Intn(6) {
+		case 5: // overlapping / repeated setter calls: duplicates in several letter cases
+			order = c16GenOrderWithDuplicates(r, keys)
 		case 0: // subset of present keys
 			for _, k := range keys {
 				if r.Intn(3) == 0 {
@@ -159,6 +161,161 @@ func TestVerif_C16_sort(t *testing.T) {
 			verifh.HexList(outKeys)+" "+verifh.HexList(outTags), ok, class,
 			listed >= 2 && unlisted >= 1,
 			"keys="+strings.Join(keys, ",")+" order="+strings.Join(order, ",")+" -> "+strings.Join(outKeys, ","))
+	}
+	s.Finish()
+}
+
+// c16DedupLast: the duplicate-free reading of an order list (the last occurrence of each name, compared
+// case-insensitively, is the one that counts), written independently of sort.go and of the model.
+func c16DedupLast(order []string) []string {
+	var out []string
+	for i, o := range order {
+		again := false
+		for _, p := range order[i+1:] {
+			if c16Canon(p) == c16Canon(o) {
+				again = true
+			}
+		}
+		if !again {
+			out = append(out, o)
+		}
+	}
+	return out
+}
+
+// c16GenOrderWithDuplicates: order lists as repeated / overlapping setter calls produce them
+// (Request.SetHeaderOrder appends): two or three runs over the present keys that overlap, entries
+// repeated in another letter case, one name three times, absent names in between.
+func c16GenOrderWithDuplicates(r interface{ Intn(int) int }, keys []string) []string {
+	var order []string
+	if len(keys) == 0 {
+		keys = []string{"X-A", "x-b"}
+	}
+	recase := func(k string) string {
+		switch r.Intn(4) {
+		case 0:
+			return strings.ToLower(k)
+		case 1:
+			return strings.ToUpper(k)
+		case 2:
+			return c16Canon(k)
+		}
+		return k
+	}
+	for call, calls := 0, 2+r.Intn(2); call < calls; call++ {
+		at := r.Intn(len(keys))
+		for j, n := 0, 1+r.Intn(6); j < n; j++ {
+			order = append(order, recase(keys[(at+j)%len(keys)]))
+		}
+		if r.Intn(3) == 0 {
+			order = append(order, "Absent-"+strconv.Itoa(call))
+		}
+	}
+	if r.Intn(3) == 0 {
+		k := keys[r.Intn(len(keys))]
+		order = append(order, k, strings.ToLower(k), strings.ToUpper(k))
+	}
+	return order
+}
+
+// TestVerif_C16_sortlisted: the real header.SortKeyValues against the SPECIFICATION of what it does
+// to the listed fields (Lean: HeaderSortSpec.listedSorted / dedupLast; theorems
+// sort_listed_subsequence, sort_order_list_dedup_irrelevant) on order lists with duplicates.
+func TestVerif_C16_sortlisted(t *testing.T) {
+	s := verifh.New(t, "C16", "sortlisted",
+		"key/value lists of 0..60 entries (names differing only in case, repeated names, pseudo names, random initial order) x order lists WITH DUPLICATES as overlapping setter calls produce them (2..3 overlapping runs over the present keys, entries re-cased lower / upper / canonical, one name three times, absent names in between) and the lists of lane sort; the real SortKeyValues runs with the list as given AND with its duplicate-free reading (last occurrence of each name, computed by the harness); compared with the model: the listed keys in output order with their input-position tags = the specification's stable sort of the listed inputs, the duplicate-free list = dedupLast, the listed tags under the duplicate-free list; oracle: output is a permutation (every input position exactly once — nothing written twice, nothing dropped), listed keys in list order, the duplicate-free list gives the same listed sequence; non-trivial = a name is listed more than once and present")
+	r := s.Rand()
+	pool := []string{"Accept", "accept", "ACCEPT", "User-Agent", "Host", "Cookie", "X-A", "X-B", "x-b", "X-C", "X-D", "X-E", "X-F", "X-G", "X-H", "X-I", "X-J", "X-K", "Content-Type", "content-length", "Referer", "x_y", "__t", "__header_order", ":method", ":path", ":scheme", ":authority"}
+	n := verifh.N(3000, 100000)
+	for c := 0; c < n; c++ {
+		size := r.Intn(61)
+		if r.Intn(4) == 0 {
+			size = r.Intn(6)
+		}
+		keys := make([]string, size)
+		for i := range keys {
+			if r.Intn(8) == 0 {
+				keys[i] = "K" + strconv.Itoa(r.Intn(40))
+			} else {
+				keys[i] = verifh.Pick(r, pool)
+			}
+		}
+		var order []string
+		if r.Intn(5) == 0 {
+			for i := 0; i < r.Intn(10); i++ {
+				order = append(order, verifh.Pick(r, pool))
+			}
+		} else {
+			order = c16GenOrderWithDuplicates(r, keys)
+		}
+		dd := c16DedupLast(order)
+		run := func(ord []string) (outKeys, outTags []string) {
+			kvs := make([]header.KeyValues, size)
+			for i, k := range keys {
+				kvs[i] = header.KeyValues{Key: k, Values: []string{strconv.Itoa(i)}}
+			}
+			header.SortKeyValues(kvs, ord)
+			for _, kv := range kvs {
+				outKeys = append(outKeys, kv.Key)
+				if len(kv.Values) == 1 {
+					outTags = append(outTags, kv.Values[0])
+				} else {
+					outTags = append(outTags, "?")
+				}
+			}
+			return
+		}
+		k1, t1 := run(order)
+		k2, t2 := run(dd)
+		ok := true
+		why := ""
+		listedOf := func(ks, ts []string, ord []string) (lk, lt []string) {
+			seen := make([]bool, size)
+			last := -1
+			for i, k := range ks {
+				j, err := strconv.Atoi(ts[i])
+				if err != nil || j < 0 || j >= size || seen[j] || keys[j] != k {
+					ok, why = false, "output is not a permutation of the input: "+k+" (tag "+ts[i]+")"
+					continue
+				}
+				seen[j] = true
+				ix := c16Index(ord, k)
+				if ix < 0 {
+					continue
+				}
+				if ix < last {
+					ok, why = false, "listed key out of order: "+k
+				}
+				last = ix
+				lk = append(lk, k)
+				lt = append(lt, ts[i])
+			}
+			return
+		}
+		lk1, lt1 := listedOf(k1, t1, order)
+		_, lt2 := listedOf(k2, t2, dd)
+		if strings.Join(lt1, ",") != strings.Join(lt2, ",") {
+			ok, why = false, "the duplicate-free list orders the listed fields differently"
+		}
+		nontriv := len(dd) < len(order) && len(lk1) > 0
+		if nontriv {
+			s.Count("duplicates-listed-present")
+		}
+		if size > 12 {
+			s.Count("n>12")
+		}
+		class := ""
+		for _, k := range append(append([]string(nil), keys...), order...) {
+			if strings.HasPrefix(k, ":") && k != strings.ToLower(k) {
+				class = "pseudo-order-case"
+			}
+		}
+		human := "keys=" + strings.Join(keys, ",") + " order=" + strings.Join(order, ",") + " -> " + strings.Join(k1, ",")
+		if !ok {
+			human += " ORACLE: " + why
+		}
+		s.Case("c16listed "+verifh.HexList(keys)+" "+verifh.HexList(order),
+			verifh.HexList(lk1)+" "+verifh.HexList(lt1)+" "+verifh.HexList(dd)+" "+verifh.HexList(lt2), ok, class, nontriv, human)
 	}
 	s.Finish()
 }
